@@ -3,7 +3,9 @@ Correspondence: (1) histories of the Deps differential with kill operations (the
 when a chosen script reaches a chosen step), compared op by op with the model, with the from-scratch oracle
 after every later exit-0 build; (2) fault enumeration on the implementation: a rebuild is run under
 `strace -f -e inject=<state-changing syscalls>:signal=KILL:when=K` for every K (the signal is delivered at
-syscall entry, the call does not execute), followed by a plain recovery run, an edit and another rebuild."""
+syscall entry, the call does not execute), followed by a plain recovery run, an edit and another rebuild; the same enumeration over the start-up of the very first
+command of a project (no .redo yet); (3) single-process kills: only the shell that runs a target's script is SIGKILLed (the
+redo process that started it survives and records the outcome), at four instants of the script."""
 import random, re, shutil
 from concurrent.futures import ThreadPoolExecutor
 from common import *
@@ -577,5 +579,5 @@ def run(ctx):
                 p = write_replay("C10", "cond-row", dict(kind="impl-monitor", info=info, scenario="t.do: if [ -e f ]; then redo-ifchange f; else redo-ifcreate f; fi; (slow); cat f or echo no-f.  build t; rm f; redo-ifchange t killed during the slow part; redo-ifchange t"))
                 viol.append(Violation("C10", p, "kill after a conditional declaration whose file was removed: recovery exits 0 but t=%s (expected no-f)" % info["t_after_recovery"]))
     cov["known_hit"] = known_hit
-    cov["rule"] += "; here with kill operations inserted before 45%% of the build commands (whole tree SIGKILLed when a chosen script reaches a chosen step), and a syscall-level kill enumeration (strace inject before the K-th rename/unlink/write/pwrite64/ftruncate/fsync of every process, %d points x {whole command, nested redo-ifchange}) on a 3-target project" % len(POINTS_THOROUGH if thorough else POINTS_QUICK)
+    cov["rule"] += "; here with kill operations inserted before 45%% of the build commands (whole tree SIGKILLed when a chosen script reaches a chosen step), and a syscall-level kill enumeration (strace inject before the K-th rename/unlink/write/pwrite64/ftruncate/fsync of every process, %d points x {whole command, nested redo-ifchange}) on a 3-target project, %d points on the first command of a fresh project, and kill -9 of only the script's shell at 4 instants x 3 edits x {direct, nested}" % (len(POINTS_THOROUGH if thorough else POINTS_QUICK), len(POINTS_FRESH))
     return cov
